@@ -238,6 +238,16 @@ class World:
             out["apps"][name] = 1 if ao.is_ready.is_set() else 0
         out["closed"] = sorted(c for c in (self.fd2c.get(sk.fd, 0) for sk in self.s.net.sockets if sk.closed and not sk.listening) if c)
         out["alive"] = sum(1 for t in self.s.threads if t.is_alive())
+
+        def size(name, deep=False):
+            v = getattr(n, name, None)
+            if v is None:
+                return -1
+            return sum(len(x) for x in v.values()) if deep else len(v)
+        out["tb"] = [size("connections"), size("peer_sockets"), size("socket_peers"), size("_half_ready_connections"),
+                     size("_peer_waiting_answer", True), size("_app_waiting_answer"), size("_origin_waiting_answer"),
+                     sum(1 for t in self.s.threads if t.is_alive() and getattr(t, "role", ("",))[0] in ("rd", "wr")),
+                     sum(1 for sk in self.s.net.sockets if not sk.closed and not sk.listening)]
         return out
 
     def emit_snap(self):
